@@ -29,7 +29,7 @@ INVARIANT Closed
 CONSTRAINT Emit
 CHECK_DEADLOCK FALSE
 '''
-SITES = ('stmt', 'local', 'infunc', 'tablefield', 'arg', 'chainhead')
+SITES = ('stmt', 'local', 'infunc', 'tablefield', 'arg', 'chainhead', 'inif', 'inelse', 'inloop', 'shortif', 'deep')
 LOOPS = [b'function _init()\n x=1\nend\n', b'function _update60() end\n', b'function _draw()\n local function _init() end\n cls()\nend\n', b'function _update()\n t=(t or 0)+1\nend\n']
 
 
@@ -46,7 +46,12 @@ def site(kind, name, opt):
             'infunc': b'function use_' + v + b'()\n  return ' + call + b'\nend\n',
             'tablefield': b't_' + v + b' = {' + call + b', 2}\n',
             'arg': b'print(' + call + b')\n',
-            'chainhead': call + b'.go()\n'}[kind]
+            'chainhead': call + b'.go()\n',
+            'inif': b'if dbg_' + v + b' then ' + call + b' end\n',
+            'inelse': b'if dbg_' + v + b' then x=1 elseif y then z=2 else\n  local q = ' + call + b'\nend\n',
+            'inloop': b'for i=1,2 do while w_' + v + b' do repeat ' + call + b' until true end end\n',
+            'shortif': b'if (dbg_' + v + b') ' + call + b'\n',
+            'deep': b'local t_' + v + b' = {a={b=function() do return (' + call + b') end end}}\n'}[kind]
 
 
 def body_pieces(rnd, fid, reqs, opts, stmts, loops_at, sites, ghost=False):
@@ -218,6 +223,7 @@ def run(ctx):
                               {'kind': 'graph', 'graph': it[1], 'seed': it[2]})
     illformed(ctx)
     loadpaths(ctx)
+    empty_packages(ctx)
     ctx.sample({'graph': {'exists': pick[0]['exists'], 'req': pick[0]['req']}, 'observed': res[0]['bound'], 'outcome': res[0]['outcome']})
 
 
@@ -292,6 +298,43 @@ def loadpaths(ctx):
             ctx.violation('loadpath/%s/%s' % (vv[0], 'multi-q' if any(p_.count('?') > 1 for p_ in lp.split(';')) else 'single-q'),
                           'build --lua-path %r requiring %s (package files present for %s): %s; outcome %s (%s), bound %s' % (lp, list(names), list(present), vv[0], rec['outcome'], rc, rec['bound']),
                           {'kind': 'loadpath', 'lua_path': lp, 'names': list(names)})
+
+
+def empty_packages(ctx):
+    """a required package whose file holds no statement (empty, comments only, only game-loop functions that are stripped)
+    is still a required name: it must be defined once in the package table"""
+    from pico8 import tool
+    from pico8.game import file as gfile
+    bodies = {'p': b'', 'q': b'-- nothing here\n// at all\n', 'sub/p': b'function _init()\n x=1\nend\nfunction _draw() cls() end\n'}
+    traces = []
+    for names in (('p',), ('q',), ('sub/p',), ('p', 'q', 'sub/p')):
+        S = tempfile.mkdtemp(prefix='c14e_', dir=ctx.tmp)
+        os.makedirs(os.path.join(S, 'sub'))
+        for f, b in bodies.items():
+            open(os.path.join(S, f + '.lua'), 'wb').write(b)
+        open(os.path.join(S, 'main.lua'), 'wb').write(b''.join(b'local m%d = require("%s")\n' % (k, n.encode()) for k, n in enumerate(names)) + b'print(1)\n')
+        out = os.path.join(S, 'out.p8')
+        try:
+            rc = tool.main(['--quiet', 'build', out, '--lua', os.path.join(S, 'main.lua')])
+        except SystemExit as e:
+            rc = e.code
+        except Exception as e:  # noqa
+            rc = 'exception %s' % type(e).__name__
+        rec = {'exists': ['main', 'p', 'q', 'sub/p'], 'req': {'main': list(names)}, 'outcome': 'error', 'bound': []}
+        if rc in (0, None) and os.path.exists(out):
+            rec['outcome'] = 'ok'
+            code = b''.join(gfile.from_file(out).lua.to_lines())
+            rec['bound'] = [[m.group(1).decode(), m.group(1).decode()] for m in re.finditer(rb'package\._c\["([^"]*)"\]=function\(\)', code)]
+        traces.append(rec)
+        shutil.rmtree(S, ignore_errors=True)
+    v = ctx.validate('TraceRequire', traces)
+    for t, vv in zip(traces, v):
+        ctx.evaluations += 1
+        if vv[0] == 'ok':
+            ctx.nontrivial += 1
+        else:
+            ctx.violation('empty-package/%s' % vv[0], 'build with required packages %s that hold no statement: %s; outcome %s, bound %s' % (t['req']['main'], vv[0], t['outcome'], t['bound']),
+                          {'kind': 'empty-package', 'names': t['req']['main']})
 
 
 def illformed(ctx):
